@@ -241,7 +241,7 @@ CORE = {
     "Tree", "Chain", "DNode", "Ping", "Dept", "NTree", "TDNode", "Item", "Cyc", "Ind",
     "list[list[int]]", "dict[str,list[int]]", "list[Point]", "dict[str,Point]", "list[Optional[int]]",
     "tuple[Point,list[int]]", "Optional[Point]", "list[date]", "list[TD]", "list[tuple[int,str]]",
-    "Union[int,str]", "Union[Point,int]", "list[Union[int,str]]", "PlainNT", "None|date", "None|SPoint", "NFHolder", "Swap", "Kind", "bytearray", "MutableSet[int]", "str|None", "WithCV", "Literal['2', 2, 'null', None]",
+    "Union[int,str]", "Union[Point,int]", "list[Union[int,str]]", "PlainNT", "None|date", "None|SPoint", "NFHolder", "Swap", "Kind", "bytearray", "MutableSet[int]", "str|None", "bool|None", "WithCV", "Literal['2', 2, 'null', None]",
 }
 
 
